@@ -473,3 +473,4 @@ def run(chk, F):
         "that the safety margin of the stack budget covers every native callee is a run-time quantity and is not "
         "decided; masm/arm64.rs (cfg(aarch64)) is not analysed on this host",
     ]
+    from rules import a64; a64.run_c13(chk, F)  # noqa: E702  arm64 siblings (aarch64 fact set)
